@@ -23,6 +23,7 @@ fn deep_block(lang: &str, depth: usize) -> String {
         "jsonish" => format!("{}7{}", "[".repeat(depth), "]".repeat(depth)),
         "stmt" => format!("{}x = 7;{}", "{ ".repeat(depth), " }".repeat(depth)),
         "arith" => format!("{}7{};", "(".repeat(depth), ")".repeat(depth)),
+        "cdecl" => format!("{}t * p; x * 7;{}", "{ ".repeat(depth), " }".repeat(depth)),
         _ => String::new(),
     }
 }
@@ -55,6 +56,11 @@ fn build_doc(b: &zoo::Built, lang: &str, tokens: usize, seed: u64) -> Vec<u8> {
     let mut doc = Vec::new();
     let half = units.len() / 2;
     for (i, (u, _)) in units.iter().enumerate() {
+        // GLR calibration grammar: dynamically resolved ambiguities sprinkled through the document,
+        // the first one before every edit position
+        if lang == "cdecl" && i % 40 == 0 {
+            doc.extend_from_slice(b"t * p;\n");
+        }
         if i == half {
             doc.extend_from_slice(deep_block(lang, depth).as_bytes());
             doc.push(b'\n');
@@ -227,7 +233,7 @@ fn main() {
     }
     let seed = seed_from_env();
     let sizes: &[usize] = if tier_is_thorough() { &[1000, 10000, 100000] } else { &[1000, 10000] };
-    for lang in ["lst", "arith", "jsonish", "stmt"] {
+    for lang in ["lst", "arith", "jsonish", "stmt", "cdecl"] {
         let b = match zoo::load(lang) {
             Ok(b) => b,
             Err(e) => {
